@@ -550,6 +550,27 @@ def rule5_prof_and_reentrancy(ctx):
                'overwritten by a nested or concurrent call before the leaves of this call have read it', loc=(bad[0].loc if bad else g.loc))
 
 
+def rule2_assert_independent(ctx, fl):
+    """the bulk helper does its work outside assert(): compiled with -DNDEBUG (assertions compiled out, a configuration users of the
+    installed headers and packagers pick freely) the creation, the recursive call on the other half and the join are still there"""
+    names = ['myth_create_join_various_ex_aux', 'myth_create_join_various_ex_body', 'myth_create_join_many_ex_body']
+    path, kw = ctx.emit_unit(names, fl, 'myth_if_native.c')
+    kw2 = dict(kw)
+    kw2['flags'] = list(kw['flags']) + ['-DNDEBUG']
+    kw2['area'] = 'emit-ndebug'
+    stops = ('myth_create_ex_body', 'myth_join_body')
+    vd = ctx.view(path, roots=names, stops=stops, **kw)
+    vn = ctx.view(path, roots=names, stops=stops, **kw2)
+    for nm in names[:1]:
+        fd, fn_ = ctx.need_fn(vd, nm), ctx.need_fn(vn, nm)
+        def work(f):
+            return sorted((c.callee or 'indirect') for c in f.calls() if (c.callee in stops or c.callee == nm or 'callee_ref' in c.d))
+        ctx.ob('C17.2', '%s does the same work with assertions compiled out' % nm, work(fd) == work(fn_) and len(work(fd)) >= 3,
+               'create, recursion, join and the item function are called in statements of their own, not inside assert(...): with '
+               '-DNDEBUG an assert argument is not evaluated and the helper would do nothing for n >= 2', loc=fd.loc,
+               detail='with assertions %s / without %s' % (work(fd), work(fn_)))
+
+
 def rule5_range_and_memory(ctx):
     """range-based parallel_for (instantiated with a declared-only Range) and the task memory allocator of task_group"""
     pats = {
@@ -661,6 +682,7 @@ def run(ctx):
                      stops=('myth_create_ex_body', 'myth_join_body', 'myth_self', 'myth_self_body'), flavour=fl)
         ctx.attempt(rule1_c, ctx, v)
         ctx.attempt(rule2_strides, ctx, v)
+        ctx.attempt(rule2_assert_independent, ctx, fl)
         ctx.attempt(rule4_join, ctx, v)
     ctx.unit = 'mtbb'
     ctx.attempt(rule5_mtbb, ctx)
@@ -669,7 +691,18 @@ def run(ctx):
 SCHED = 'src/myth_sched_func.h'
 PF = 'src/mtbb/parallel_for.h'
 TG = 'src/mtbb/task_group.h'
+C17M2_OLD = """    int r0 = myth_create_ex_body(&cid, attr_a, myth_create_join_various_ex_aux, carg);
+    assert(r0 == 0); /* TODO : better communicate error */
+    void * r1 = myth_create_join_various_ex_aux(carg + 1);
+    assert(r1 == 0); /* TODO : better communicate error */
+    int r2 = myth_join_body(cid, 0);
+    assert(r2 == 0); /* TODO : better communicate error */"""
+C17M2_NEW = """    assert(myth_create_ex_body(&cid, attr_a, myth_create_join_various_ex_aux, carg) == 0);
+    assert(myth_create_join_various_ex_aux(carg + 1) == 0);
+    assert(myth_join_body(cid, 0) == 0);"""
 MUTANTS = [
+    {'name': 'create / recursion / join folded into assert() arguments (seed5 C17/m2)', 'expect': 'C17.2',
+     'edits': [('src/myth_sched_func.h', C17M2_OLD, C17M2_NEW)]},
     {'name': 'split descriptor narrowed to 32-bit strides (seed5 C17/m1)', 'expect': 'C17.2',
      'edits': [('src/myth_sched_func.h', "  size_t id_stride;\t\t/* stride of ids   between consecutive threads */", "  unsigned id_stride;\t\t/* stride of ids   between consecutive threads */")]},
     {'name': 'create_join_many keeps its one-element function table in static storage (seed4 C17/m1)', 'expect': 'C17.5',
